@@ -281,3 +281,8 @@ Proof.
   unfold bounded_ok. intros H Ck. rewrite Ck in H. destruct (solve_checked pb) as [sol|] eqn:E; [|discriminate].
   exists sol. apply solve_checked_sound. exact E.
 Qed.
+
+Lemma box_optimal N M pos sup dem : forall_probs_upto N M pos sup dem bounded_ok = true ->
+  forall pb, in_box N M pos sup dem pb -> check pb = None ->
+  exists sol, solve pb = Ok sol /\ valid_plan pb sol /\ forall sol', valid_plan pb sol' -> plan_cost pb sol <= plan_cost pb sol'.
+Proof. intros H pb Hb Ck. apply bounded_ok_spec; [|exact Ck]. apply (forall_probs_upto_spec _ _ _ _ _ _ H pb Hb). Qed.
